@@ -240,7 +240,8 @@ def finding_cases():
     cases.append(("edge-without-bond", base_atoms + '[ link ]\nresname "RA"\n[ angles ]\nA4 A5 +A1 2 120 50\n', ["RA:2"]))
     cases.append(("edges-directive-only", base_atoms + '[ link ]\nresname "RA"\n[ edges ]\nA5 +A1\n', ["RA:2"]))
     cases.append(("bond-between-non-neighbours", base_atoms + link +
-                  '[ link ]\nresname "RA"\n[ bonds ]\nA1 ++A1 6 0.9 50 {"edge": false}\n[ edges ]\nA5 +A1\n+A5 ++A1\n', ["RA:3"]))
+                  '[ link ]\nresname "RA"\n[ bonds ]\nA1 ++A1 6 0.9 50 {"edge": false}\n'
+                  '[ angles ]\nA4 A5 +A1 2 120 50\n+A4 +A5 ++A1 2 120 50 {"version": "2"}\n', ["RA:3"]))
     cases.append(("virtual-sitesn-two-params", base_atoms + "[ virtual_sitesn ]\nA5 A1 A2 -- 3 0.5\n" + link, ["RA:2"]))
     specs = []
     for shape, text, seq in cases:
